@@ -63,7 +63,9 @@ func Notes(ctx context.Context, client *gitlab.Client, issue *gitlab.Issue) <-ch
 			notes, resp, err := client.Notes.ListIssueNotes(issue.ProjectID, issue.IID, &opts, gitlab.WithContext(ctx))
 
 			if err != nil {
+				// resp is nil when the request itself failed: stop listing
 				out <- ErrorEvent{Err: err, Time: time.Now()}
+				return
 			}
 
 			for _, note := range notes {
@@ -94,7 +96,9 @@ func LabelEvents(ctx context.Context, client *gitlab.Client, issue *gitlab.Issue
 			events, resp, err := client.ResourceLabelEvents.ListIssueLabelEvents(issue.ProjectID, issue.IID, &opts, gitlab.WithContext(ctx))
 
 			if err != nil {
+				// resp is nil when the request itself failed: stop listing
 				out <- ErrorEvent{Err: err, Time: time.Now()}
+				return
 			}
 
 			for _, e := range events {
@@ -126,7 +130,9 @@ func StateEvents(ctx context.Context, client *gitlab.Client, issue *gitlab.Issue
 		for {
 			events, resp, err := client.ResourceStateEvents.ListIssueStateEvents(issue.ProjectID, issue.IID, &opts, gitlab.WithContext(ctx))
 			if err != nil {
+				// resp is nil when the request itself failed: stop listing
 				out <- ErrorEvent{Err: err, Time: time.Now()}
+				return
 			}
 
 			for _, e := range events {
